@@ -89,17 +89,19 @@ class OtherError(Exception):
 
 
 def BOUNDS(tier):
-    return {"max_declared_fields": 2}
+    return {"max_declared_fields": 2 if tier == "quick" else 3}
 
 
-def definitions():
+def definitions(tier="quick"):
     out = [[i] for i in range(len(FIELD_KINDS))]
     out += [[i, j] for i in range(len(FIELD_KINDS)) for j in range(len(FIELD_KINDS))]
+    if tier != "quick":
+        out += [[i, j, k] for i in range(len(FIELD_KINDS)) for j in range(len(FIELD_KINDS)) for k in range(len(FIELD_KINDS))]
     return out
 
 
 def units(tier):
-    return [["def", d] for d in definitions()] + [["tests"]]
+    return [["def", d] for d in definitions(tier)] + [["tests"]]
 
 
 def deviations(defn, kind):
